@@ -182,6 +182,15 @@ func runC04(w *World, tier string) (bool, interface{}) {
 		t = n
 	}
 	c := NewCluster(w, n)
+	fedOps := map[int][][]byte{} // key-generation operation files each machine was fed
+	for i, op := range c.Ops {
+		i := i
+		op.PreAir = func(o *types.Operation, opJSON []byte) {
+			if !o.IsSigningState() {
+				fedOps[i] = append(fedOps[i], append([]byte(nil), opJSON...))
+			}
+		}
+	}
 	c.L.Faults.PermuteResults = true
 	members := AllMembers(n)
 	// round A
@@ -244,6 +253,30 @@ func runC04(w *World, tier string) (bool, interface{}) {
 	if bad, err := json.Marshal(types.Operation{ID: strings.Repeat("ab", 16), Type: "state_dkg_commits_await_confirmations", Payload: []byte(`[{"ParticipantId":0,"Username":"x","DkgPubKey":"AAAA","Threshold":2}]`), DKGIdentifier: roundA}); err == nil {
 		_, _ = w.AirProcess(w.Airs[0], bad)
 		w.Stats.Fault("error-result-induced")
+	}
+	// more error results: genuine operation files of the key-generation steps fed
+	// again with one binary field damaged in transit (truncated or replaced
+	// ciphertext / point): whatever the machine answers is scanned as well
+	for k := 0; k < 3 && !w.Failed(); k++ {
+		i := w.Tape.Choose(len(w.Airs), "damagedFor")
+		if len(fedOps[i]) == 0 || w.Airs[i] == nil || w.Airs[i].M == nil {
+			continue
+		}
+		raw := fedOps[i][w.Tape.Choose(len(fedOps[i]), "damagedOp")]
+		var om map[string]json.RawMessage
+		var pl []byte
+		if json.Unmarshal(raw, &om) != nil || json.Unmarshal(om["Payload"], &pl) != nil {
+			continue
+		}
+		md, ok := mutateJSON(w, pl, []string{"truncated-bytes-value", "junk-bytes-value"}[w.Tape.Choose(2, "damage")])
+		if !ok {
+			continue
+		}
+		om["Payload"], _ = json.Marshal(md)
+		if bad, err := json.Marshal(om); err == nil {
+			_, _ = w.AirProcess(w.Airs[i], bad)
+			w.Stats.Fault("error-result-induced-by-damaged-operation")
+		}
 	}
 	c.L.Quiesce(6)
 
